@@ -962,4 +962,137 @@ MUTANTS += [
      "expect": [("C18", "C18|R2")]},
 ]
 
+MUTANTS += [
+    {"name": "c07-decrement-on-same-hash",
+     "edits": [("src/index/state.rs",
+                """                    Some(prev) => {
+                        // Same blob hash: refcounts unchanged.""",
+                """                    Some(prev) => {
+                        if let Some(h) = self.decrement_ref(&prev.blob_hash)? {
+                            unreferenced_hashes.push(h);
+                        }
+                        // Same blob hash: refcounts unchanged.""")],
+     "expect": [("C07", "C07|R2")]},
+    {"name": "c07-no-decrement-on-repoint",
+     "edits": [("src/index/state.rs",
+                """                        if let Some(h) = self.decrement_ref(&prev.blob_hash)? {
+                            unreferenced_hashes.push(h);
+                            self.stats.cas.unique_blobs -= 1;
+                            self.stats.cas.total_bytes -= prev.blob_size;
+                        }
+
+                        // 2) increment new""",
+                """                        let _ = &prev;
+
+                        // 2) increment new""")],
+     "expect": [("C07", "C07|R2")]},
+    {"name": "c07-zero-not-collected-on-remove",
+     "edits": [("src/index/state.rs",
+                """                    {
+                        unreferenced_hashes.push(h);
+                        self.stats.cas.unique_blobs -= 1;
+                        self.stats.cas.total_bytes -= item.blob_size;
+                    }""",
+                """                    {
+                        let _ = h;
+                        self.stats.cas.unique_blobs -= 1;
+                        self.stats.cas.total_bytes -= item.blob_size;
+                    }""")],
+     "expect": [("C07", "C07|R2")]},
+    {"name": "c07-decrement-keeps-zero-entries",
+     "edits": [("src/index/state.rs",
+                """                if *count == 0 {
+                    self.hash_to_ref_count.remove(hash_to_decrement);
+                    Ok(Some(*hash_to_decrement))
+                } else {
+                    Ok(None)
+                }""",
+                """                if *count == 0 {
+                    Ok(Some(*hash_to_decrement))
+                } else {
+                    Ok(None)
+                }""")],
+     "expect": [("C07", "C07|R2")]},
+    {"name": "c07-delete-only-when-many",
+     "edits": [("src/index/manager.rs",
+                """        // Delete blobs BEFORE any checkpoint
+        if !unreferenced_from_op.is_empty() {
+            delete_fn(&unreferenced_from_op).map_err(|e| IndexError::BlobDeletion { source: e })?;
+        }
+
+        drop(intents);
+
+        if rolled_over {
+            let mut state = self.state.write();
+            let mut wal = self.wal.lock();
+            self.checkpoint_inner(CheckpointReason::SegmentRollover, &mut wal, &mut state)?;
+        }
+
+        Ok(())
+    }
+
+    fn checkpoint_inner(""",
+                """        // Delete blobs BEFORE any checkpoint
+        if unreferenced_from_op.len() > 1 {
+            delete_fn(&unreferenced_from_op).map_err(|e| IndexError::BlobDeletion { source: e })?;
+        }
+
+        drop(intents);
+
+        if rolled_over {
+            let mut state = self.state.write();
+            let mut wal = self.wal.lock();
+            self.checkpoint_inner(CheckpointReason::SegmentRollover, &mut wal, &mut state)?;
+        }
+
+        Ok(())
+    }
+
+    fn checkpoint_inner(""")],
+     "expect": [("C07", "C07|R1")]},
+    {"name": "c07-unlink-errors-swallowed",
+     "edits": [("src/cas_manager.rs",
+                """                Err(e) => {
+                    return Err(CasManagerError::FileOperation {
+                        operation: CasIoOperation::RemoveFile,
+                        path: file_path,
+                        source: e,
+                    });
+                }""",
+                """                Err(e) => {
+                    tracing::warn!("could not delete {}: {e}", file_path.display());
+                }""")],
+     "expect": [("C07", "C07|R4")]},
+    {"name": "c12-bytes-of-new-size-on-death",
+     "edits": [("src/index/state.rs",
+                """                            self.stats.cas.total_bytes -= prev.blob_size;""",
+                """                            self.stats.cas.total_bytes -= *size;""")],
+     "expect": [("C12", "C12|R2")]},
+    {"name": "c12-unique-bumped-always",
+     "edits": [("src/index/state.rs",
+                """                        // New key → bump refcount of the new hash.
+                        if self.increment_ref(hash) {
+                            self.stats.cas.unique_blobs += 1;
+                            self.stats.cas.total_bytes += *size;
+                        }""",
+                """                        // New key → bump refcount of the new hash.
+                        self.increment_ref(hash);
+                        self.stats.cas.unique_blobs += 1;
+                        self.stats.cas.total_bytes += *size;""")],
+     "expect": [("C12", "C12|R2")]},
+    {"name": "c12-refcount-touched-by-manager",
+     "edits": [("src/index/manager.rs",
+                """        let unreferenced = state.apply_logical_op(logical_op).expect("Index is corrupted");
+""",
+                """        let unreferenced = state.apply_logical_op(logical_op).expect("Index is corrupted");
+        state.hash_to_ref_count.retain(|_, c| *c > 0);
+""")],
+     "expect": [("C12", "C12|R1")]},
+    {"name": "c12-recompute-counts-keys",
+     "edits": [("src/index/state.rs",
+                """        let unique_blobs = unique.len() as u64;""",
+                """        let unique_blobs = self.key_to_hash.len() as u64;""")],
+     "expect": []},
+]
+
 BENIGN = []
